@@ -648,6 +648,11 @@ def check_bindings(case):
                 raise Violation('after %r on parser A, parser B evaluates %r to %r instead of %r' % (case['ops'][:step + 1], p, g, w), enc(g['result']) if g['error'] is None else g['error'], enc(w['result']) if w['error'] is None else w['error'])
         if set(B.variables.keys()) != set(['TRUE', 'FALSE', 'NULL', 'v_a']) or B.functions or any(B._e.get(k) for k in list(B._e.keys())):
             raise Violation('after %r on parser A, parser B holds bindings: variables %r functions %r listeners %r' % (case['ops'][:step + 1], sorted(B.variables), sorted(B.functions), dict(B._e)), None, None)
+        # B's own one-shot listener works as if A did not exist: it answers the next reference and only that one
+        B.once('callVariable', lambda name, setter: setter(555))
+        g1, g2 = B.parse('v_q'), B.parse('v_q')
+        if g1 != {'result': 555, 'error': None} or g2 != {'result': None, 'error': '#NAME?'}:
+            raise Violation('after %r on parser A, a once-listener subscribed on parser B answered two successive references v_q with %r and %r (expected 555, then #NAME?)' % (case['ops'][:step + 1], g1, g2), [enc(g1['result']), g2['error']], [555, '#NAME?'])
         if B.variables['TRUE'] is not True:
             raise Violation('after %r on parser A, B\'s TRUE is %r' % (case['ops'][:step + 1], B.variables['TRUE']), None, None)
 
